@@ -131,6 +131,6 @@ func (c *NewPet) unmarshalJSONInnerBody(m map[string]json.RawMessage) error {
 //         RequestBodies
 // ------------------------------
 
-type NewPetJSON NewPet
+type NewPetJSON = NewPet
 
-type Pets2JSON NewPetJSON
+type Pets2JSON = NewPetJSON
